@@ -139,6 +139,10 @@ def handle (req : Sexp) : Sexp :=
           some (if v.w > 0 && v.h > 0 then put (Spec.equivalentTransform pr w h v) else .atom "na")
         | _ => some (.atom "na")
       some (ok [put (resolveTransforms (parsePAR par.toList) w h (some v)), sp])
+    | .list [.atom "root", w, h, dw, dh, .str par] => do
+      -- root <svg> without viewBox: viewport W×H, declared absolute width/height (or none)
+      let t := rootTransform (parsePAR par.toList) (← w.asRat?) (← h.asRat?) none (← optRat dw) (← optRat dh)
+      some (ok [Sexp.list [ofRat t.sx, ofRat t.sy, ofRat t.tx, ofRat t.ty]])
     | .list [.atom "radii", ra, rb, x, y, sq] => do
       let r := scaleRadii (← ra.asRat?) (← rb.asRat?) (← x.asRat?) (← y.asRat?) (← sq.asRat?)
       some (ok [ofRat r.1, ofRat r.2])
